@@ -15,7 +15,6 @@ from happysimulator.core.entity import Entity
 from happysimulator.core.event import (
     Event,
     _active_debugger_context,
-    reset_event_counter,
 )
 from happysimulator.core.event_heap import EventHeap
 from happysimulator.core.protocols import Simulatable
@@ -74,8 +73,9 @@ class Simulation:
         fault_schedule: "FaultSchedule | None" = None,
         duration: float | None = None,
     ):
-        reset_event_counter()
-
+        # The global sort-index counter is deliberately NOT reset here: events
+        # built before this Simulation object keep indices below later ones, so
+        # same-timestamp order is creation order whatever ran earlier in the process.
         if duration is not None and end_time is not None:
             raise ValueError("Cannot specify both 'duration' and 'end_time'")
 
